@@ -173,7 +173,7 @@ def solve_call(ctx, s, name, Ns, P, tag):
         return "failed"
 
 
-OPS = ["P=scalar", "P=vector", "set_precoders(F)", "set_precoders(F,P)",
+OPS = ["P=scalar", "P=vector", "P=None", "set_precoders(F)", "set_precoders(F,P)",
        "set_precoders(full_F)", "set_receive_filters(W_H)", "set_receive_filters(W)",
        "randomizeF", "solve-again", "read-all"]
 
@@ -229,6 +229,8 @@ def case_solve(ctx, rng, idx):
                 s.P = float(10.0 ** rng.uniform(-1, 2))
             elif op == "P=vector":
                 s.P = 10.0 ** rng.uniform(-1, 2, size=K)
+            elif op == "P=None":
+                s.P = None          # back to the default unit power
             elif op == "set_precoders(F)":
                 newF = [rand_c(rng, Nt[k], cur_Ns[k]) for k in range(K)]
                 s.set_precoders(F=obj_array([f / fro(f) for f in newF]))
@@ -276,7 +278,7 @@ def case_solve(ctx, rng, idx):
         if "set_precoders(full_F)" in touched_after and not exact:
             ex = False
         cf = name == "closed" and all(h in ("solve", "solve-again", "read-all", "P=scalar",
-                                            "P=vector") for h in hist)
+                                            "P=vector", "P=None") for h in hist)
         check_relations(ctx, s, name, Hkl, ex, {**tag, "history": list(hist)}, closed_form=cf)
         ctx.sig(name, K, tuple(Nr), tuple(Nt), tuple(Ns), init, hist[-2], op)
     ctx.sample(name, {**tag, "history": hist})
